@@ -44,6 +44,22 @@ CHECKS = {
          "histories; oracle: existing bytes/files unchanged and read = original ++ batches in order.",
          "Trusted: Lean kernel + standard axioms; POSIX write semantics; path text / regex outside the model. Value decode per row group is C01/C03.",
          "Lean 4 proof + trace/byte correspondence over histories", "§6 C07"),
+ "C09": ("Lean 4 model of the dataset-edit state machine (append, partition overwrite, row-group removal, two-pass part-file "
+         "renumbering driven by part_ids keyed by bare part number) with theorems that append and removal preserve the agreement "
+         "invariant (every referenced file exists with the stated rows, no unreferenced part file) and refine the plain "
+         "partition->rows specification; tied to the code by step-by-step correspondence of directory listing and row-group list over "
+         "random histories; the invariant and the plain model are also evaluated directly on the real directory after every step.",
+         "Trusted: Lean kernel + standard axioms; rename replaces its destination; partition text equality stands for value equality "
+         "(timestamp partitions excluded).",
+         "Lean 4 proof (invariant by induction over operations) + history correspondence", "§6 C09"),
+ "C18": ("Lean 4 theorems: a rejection detected up front performs no filesystem operation; a failure at any position of a multi-file append "
+         "(any prefix of the data phase) leaves a fresh open reading exactly the previous content; for single files the model shows the "
+         "footer is overwritten before the new one exists (proved witness) and that rewriting the saved tail restores the file byte for "
+         "byte. The harness enumerates every kind of rejection x offending column position x row group x dataset layout on the real "
+         "code, checks that it raises, that every pre-existing file is byte-identical and the content re-reads, and records the "
+         "open/mkdir calls (up-front rejections must issue none).",
+         "Trusted: Lean kernel + standard axioms; filesystem semantics as in C19. The enumeration of rejection kinds is the property's list.",
+         "Lean 4 proof + exhaustive enumeration of rejection kinds with fs-trace correspondence", "§6 C18"),
 }
 
 def main():
